@@ -58,6 +58,17 @@
 (*  dyncap a function is defined while a CALLER on the stack has a local with the name of    *)
 (*        one of its global free variables (pyscript searches the call stack's tables:      *)
 (*        dynamic scoping)                                                                  *)
+(*  nldyn a function that declares x nonlocal is defined where pyscript's definition-time     *)
+(*        search for x's cell - the defining activation's table, then the tables of the     *)
+(*        CALLERS on the stack, innermost first - does not arrive at the lexical owner's    *)
+(*        cell: the functions in between do not "mention" x for pyscript's static pre-pass  *)
+(*        (PNames below: a name the inner function assigns is taken for its local even if   *)
+(*        declared nonlocal there) and the defining activation was not called from the      *)
+(*        lexical owner (PyCell below computes the search; exact up to earlier deviations)  *)
+(* census mark (no deviation, never an excuse; shows that the ambiguous situations occur):  *)
+(*  amb   a function is defined that captures x from an enclosing activation while ANOTHER  *)
+(*        activation on the call stack also has a local named x (recursion of the owner, a  *)
+(*        caller with a same-named variable): the capture must pick the lexical one         *)
 (* and two marks for behaviour that is not demanded here: sv (below) and                    *)
 (*  xdel  the target of `except .. as x` was deleted inside the handler (the handler's exit  *)
 (*        protocol is C02's business)                                                       *)
@@ -165,6 +176,47 @@ HasCompS(body, i) ==
           [] s.k \in {"ifpos", "with"} -> HasCompE(s.e) \/ HasCompS(s.body, 1)
           [] OTHER -> FALSE)
        \/ HasCompS(body, i + 1)
+\* the names of a block as pyscript's static pre-pass (get_names_set) collects them for the function owning the
+\* block: the names of a nested def / class body count only if that body neither binds them (assignment-like
+\* statements of its own block - a `nonlocal` declaration there is not consulted) nor declares them global;
+\* parameters and default expressions of nested definitions are not visited.  Used by the nldyn locus only.
+RECURSIVE PNamesE(_, _), PNamesEs(_, _, _), PNamesS(_, _, _), PInner(_, _)
+PNamesE(codes, e) ==
+  CASE e.k = "name" -> {e.x}
+    [] e.k = "walrus" -> {e.x} \cup PNamesE(codes, e.a)
+    [] e.k \in {"ev", "sub1"} -> PNamesE(codes, e.a)
+    [] e.k = "attr" -> PNamesE(codes, e.o)
+    [] e.k = "call" -> PNamesE(codes, e.f) \cup PNamesEs(codes, e.args, 1) \cup PNamesEs(codes, [i \in 1..Len(e.kws) |-> e.kws[i].e], 1)
+    [] e.k = "lambda" -> PNamesE(codes, codes[e.c].expr) \cup PNamesEs(codes, codes[e.c].dflt, 1)
+    [] e.k = "comp" -> {codes[e.c].x} \cup PNamesE(codes, codes[e.c].expr)
+    [] OTHER -> {}
+PNamesEs(codes, es, i) == IF i > Len(es) THEN {} ELSE PNamesE(codes, es[i]) \cup PNamesEs(codes, es, i + 1)
+PNamesS(codes, body, i) ==
+  IF i > Len(body) THEN {}
+  ELSE LET s == body[i] IN
+       (CASE s.k = "assign" -> {s.x} \cup PNamesE(codes, s.e)
+          [] s.k \in {"expr", "ret", "push"} -> PNamesE(codes, s.e)
+          [] s.k = "def" -> {s.x} \cup PNamesEs(codes, s.decos, 1) \cup PInner(codes, s.c)
+          [] s.k = "class" -> {s.x} \cup PInner(codes, s.c)
+          [] s.k = "del" -> {s.x}
+          [] s.k \in {"for", "tryexc"} -> {s.x} \cup PNamesS(codes, s.body, 1)
+          [] s.k = "ifpos" -> PNamesE(codes, s.e) \cup PNamesS(codes, s.body, 1)
+          [] s.k = "with" -> {s.x} \cup PNamesE(codes, s.e) \cup PNamesS(codes, s.body, 1)
+          [] s.k = "setattr" -> PNamesE(codes, s.o) \cup PNamesE(codes, s.e)
+          [] OTHER -> {})
+       \cup PNamesS(codes, body, i + 1)
+PInner(codes, c) == PNamesS(codes, codes[c].body, 1) \ (BindsS(codes[c].body, 1) \cup Range(codes[c].globals))
+PMent(codes, c) == PNamesS(codes, codes[c].body, 1) \cup Range(AllParams(codes[c].sig))
+                   \cup Range(codes[c].globals) \cup Range(codes[c].nonlocals)
+\* does the block contain a def / class statement (pyscript keeps a function's locals in cells only then)
+RECURSIVE HasDefS(_, _)
+HasDefS(body, i) ==
+  IF i > Len(body) THEN FALSE
+  ELSE LET s == body[i] IN
+       (CASE s.k \in {"def", "class"} -> TRUE
+          [] s.k \in {"for", "tryexc", "ifpos", "with"} -> HasDefS(s.body, 1)
+          [] OTHER -> FALSE)
+       \/ HasDefS(body, i + 1)
 Declared(code) == Range(code.globals) \cup Range(code.nonlocals)
 Locals(code) ==
   CASE code.kind = "module" -> {}
@@ -221,6 +273,24 @@ RECURSIVE OnStack(_, _, _, _)
 OnStack(P, M, g, x) ==
   IF g = 0 THEN FALSE
   ELSE (P.codes[M.frames[g].code].kind = "func" /\ x \in P.loc[M.frames[g].code]) \/ OnStack(P, M, M.frames[g].caller, x)
+\* nldyn: the cell pyscript's definition-time search for x arrives at, started in frame g and continued through
+\* the callers (0 = none: "no binding for nonlocal").  A function activation holds a cell for x if x is its own
+\* local and its body contains a def / class, or if the function itself captured x (then, up to deviations that
+\* happened earlier, the lexical owner's); class bodies and natively compiled code hold no cells.
+RECURSIVE PyCell(_, _, _, _)
+PyCell(P, M, g, x) ==
+  IF g = 0 THEN 0
+  ELSE LET fr == M.frames[g]  c == fr.code  code == P.codes[c] IN
+       IF code.kind = "func" /\ x \in P.loc[c] /\ P.hasdef[c] THEN g
+       ELSE IF code.kind = "func" /\ x \in P.pment[c] \ (P.loc[c] \cup Range(code.globals)) /\ Owner(P, M, fr.parent, x) # 0
+            THEN Owner(P, M, fr.parent, x)
+       ELSE PyCell(P, M, fr.caller, x)
+\* amb: does an activation other than w on the dynamic call chain starting at frame g have a local named x
+RECURSIVE OtherHolder(_, _, _, _, _)
+OtherHolder(P, M, g, w, x) ==
+  IF g = 0 THEN FALSE
+  ELSE (g # w /\ P.codes[M.frames[g].code].kind = "func" /\ x \in P.loc[M.frames[g].code])
+       \/ OtherHolder(P, M, M.frames[g].caller, w, x)
 Mark(M, m) == IF M.marks[m] = 0 THEN [M EXCEPT !.marks[m] = Len(M.log) + 1] ELSE M
 
 (* ------------------------------ log ------------------------------------------------------ *)
@@ -268,8 +338,14 @@ MakeFn(P, M0, f, c) ==
                x \notin P.loc[fc] /\ x \notin Range(P.codes[fc].globals) /\ Owner(P, M0, M0.frames[f].parent, x) # 0
       dc == \E x \in P.ment[c] \ (P.loc[c] \cup Range(P.codes[c].globals)) :
                Owner(P, M0, f, x) = 0 /\ f # 0 /\ OnStack(P, M0, M0.frames[f].caller, x)
+      nl == f # 0 /\ \E x \in Range(P.codes[c].nonlocals) :
+               LET w == Owner(P, M0, f, x) IN w # 0 /\ PyCell(P, M0, f, x) # w
+      am == f # 0 /\ \E x \in P.ment[c] \ (P.loc[c] \cup Range(P.codes[c].globals)) :
+               LET w == Owner(P, M0, f, x) IN w # 0 /\ OtherHolder(P, M0, f, w, x)
       M1 == IF nd THEN Mark(M0, "ndflt") ELSE M0
-      M  == IF dc THEN Mark(M1, "dyncap") ELSE M1
+      M2 == IF dc THEN Mark(M1, "dyncap") ELSE M1
+      M3 == IF nl THEN Mark(M2, "nldyn") ELSE M2
+      M  == IF am THEN Mark(M3, "amb") ELSE M3
       d1 == EvalList(P, M, f, P.codes[c].dflt, 1, <<>>) IN
   IF IsExc(d1.r) THEN d1
   ELSE LET d2 == EvalList(P, d1.M, f, P.codes[c].kodflt, 1, <<>>) IN
@@ -426,10 +502,12 @@ Expected(prog, flags) ==
              loc |-> [c \in 1..Len(prog.codes) |-> Locals(prog.codes[c])],
              ment |-> [c \in 1..Len(prog.codes) |-> NamesC(prog.codes, c)],
              inner |-> [c \in 1..Len(prog.codes) |-> InnerS(prog.codes, prog.codes[c].body, 1)],
-             hascomp |-> [c \in 1..Len(prog.codes) |-> HasCompS(prog.codes[c].body, 1)]]
+             hascomp |-> [c \in 1..Len(prog.codes) |-> HasCompS(prog.codes[c].body, 1)],
+             pment |-> [c \in 1..Len(prog.codes) |-> PMent(prog.codes, c)],
+             hasdef |-> [c \in 1..Len(prog.codes) |-> HasDefS(prog.codes[c].body, 1)]]
       M0 == [frames |-> <<>>, globs |-> [c \in {"main"} |-> [n \in names |-> Unbound]], ctx |-> <<"main">>,
              objs |-> <<>>, box |-> <<>>, log |-> <<>>, fuel |-> prog.fuel,
-             ndef |-> {}, marks |-> [m \in {"sv", "xdel", "comp", "ucap", "excas", "ndflt", "dyncap"} |-> 0]]
+             ndef |-> {}, marks |-> [m \in {"sv", "xdel", "comp", "ucap", "excas", "ndflt", "dyncap", "nldyn", "amb"} |-> 0]]
       r  == Exec(P, M0, 0, prog.codes[1].body, 1)
   IN [log |-> IF IsExc(r.r) THEN Append(r.M.log, [s |-> 0, k |-> r.r.e, n |-> 0]) ELSE r.M.log, marks |-> r.M.marks]
 =============================================================================
